@@ -118,6 +118,44 @@ def _inner(p, inner):
     return [v]
 
 
+def build(case, objs):
+    """Build the flatten query of a case; returns (query, extract) with extract(results) -> [(parent | None, value)]."""
+    sel = case["select"]
+    cond = case["cond"]
+    V, conts = declare_vars(case, objs)
+    with symbolic_mode():
+        p = V[0]
+        e = flatten(getattr(p, case["inner"]))
+        VV = [p, e] + V[1:]
+        conds = []
+        if cond is not None:
+            if case["split_top"] and cond[0] == "and":
+                conds = [build_cond(c, VV) for c in cond[2]]
+            else:
+                conds = [build_cond(cond, VV)]
+        if sel == "entity_e":
+            q = an(entity(e, *conds))
+        elif sel == "e":
+            q = an(set_of([e], *conds))
+        elif sel == "p_e":
+            q = an(set_of([p, e], *conds))
+        elif sel == "e_p":
+            q = an(set_of([e, p], *conds))
+        elif sel == "p_only":
+            q = an(entity(p, *conds))            # projection onto the parent
+        else:
+            ea = e.a
+            q = an(entity(ea, *conds))           # projection onto an attribute of the flattened element
+
+    def extract(res):
+        if sel == "e":
+            return [(None, r[e]) for r in res]
+        if sel in ("entity_e", "p_only", "e_attr"):
+            return [(None, r) for r in res]
+        return [(r[p], r[e]) for r in res]
+    return q, extract
+
+
 def check(case) -> Outcome:
     objs = build_entities(case["ents"])
     doms = var_domains(case, objs)
@@ -146,46 +184,15 @@ def check(case) -> Outcome:
     feats = list(classes)
     if sel == "p_only" and case["cond_kind"] in ("or", "not_and") and any(not i for i in inners):
         feats.append("parent_only_disjunction_with_empty_inner")
-    V, conts = declare_vars(case, objs)
     try:
-        with symbolic_mode():
-            p = V[0]
-            e = flatten(getattr(p, case["inner"]))
-            VV = [p, e] + V[1:]
-            conds = []
-            if cond is not None:
-                if case["split_top"] and cond[0] == "and":
-                    conds = [build_cond(c, VV) for c in cond[2]]
-                else:
-                    conds = [build_cond(cond, VV)]
-            if sel == "entity_e":
-                q = an(entity(e, *conds))
-            elif sel == "e":
-                q = an(set_of([e], *conds))
-            elif sel == "p_e":
-                q = an(set_of([p, e], *conds))
-            elif sel == "e_p":
-                q = an(set_of([e, p], *conds))
-            elif sel == "p_only":
-                q = an(entity(p, *conds))            # projection onto the parent
-            else:
-                ea = e.a
-                q = an(entity(ea, *conds))           # projection onto an attribute of the flattened element
+        q, extract = build(case, objs)
     except Exception as ex:
         return fail("exception", f"building: {type(ex).__name__}: {ex}", nontrivial=nontrivial, classes=classes,
                     features=feats)
     # the same query object is evaluated twice: the second evaluation must satisfy the same oracle (C04/C05 for this family)
     for attempt in (1, 2):
         try:
-            res = list(q.evaluate())
-            if sel == "entity_e":
-                got = [(None, r) for r in res]
-            elif sel == "e":
-                got = [(None, r[e]) for r in res]
-            elif sel in ("p_only", "e_attr"):
-                got = [(None, r) for r in res]
-            else:
-                got = [(r[p], r[e]) for r in res]
+            got = extract(list(q.evaluate()))
         except Exception as ex:
             return fail("exception", f"evaluation {attempt}: {type(ex).__name__}: {ex}; expected {show_rows(expected)}",
                         nontrivial=nontrivial, classes=classes, features=feats + [f"evaluation{attempt}"])
